@@ -278,9 +278,367 @@ theorem fetchCore_spec (W : Nat) (hW : 0 < W) (seq post : Bytes) (a b : Nat) (ha
           congr 1; omega
 
 
-/-- **C17.contig_lengths**: the lengths reported are the index's sequence-length column -/
-theorem contig_lengths_rows (idx : List IdxRow) :
-    contigLengths idx = idx.map (fun r => (firstWord r.name, r.rlen)) := rfl
+
+/-- **C17.fetch_interval**: for a record stored anywhere in a file (`pre` before its first base,
+`post` after its last line), with the index row the property prescribes, every interval
+`0 ≤ a ≤ b ≤ L` is fetched as exactly `seq[a:b]` — for every width `W ≥ 1`, wherever `a` and `b`
+fall relative to line breaks -/
+theorem fetch_interval (pre post seq : Bytes) (W : Nat) (hW : 0 < W) (hs : seq ≠ []) (name : Bytes)
+    (a b : Nat) (hab : a ≤ b) (hb : b ≤ seq.length) :
+    fetchInterval (pre ++ wrapBytes W seq ++ post)
+      ⟨name, seq.length, pre.length, min W seq.length, min W seq.length + 1⟩ a b
+      = (seq.drop a).take (b - a) := by
+  have hL : 0 < seq.length := by
+    cases seq with | nil => exact absurd rfl hs | cons _ _ => simp
+  obtain ⟨W', hW'⟩ : ∃ W', W' = min W seq.length := ⟨_, rfl⟩
+  have hW'pos : 0 < W' := by omega
+  rw [wrap_min W seq hs, ← hW']
+  have := fetchCore_spec W' hW'pos seq post a b hab hb
+  unfold fetchCore at this
+  unfold fetchInterval readAt
+  simp only
+  rw [List.append_assoc, ← List.drop_drop, List.drop_left]
+  rw [← this]
+
+example : fetchInterval (">a\nACGTA\nCG\n>b\nTT\n".toList.map Char.toNat)
+    ⟨"a".toList.map Char.toNat, 7, 3, 5, 6⟩ 4 6 = "AC".toList.map Char.toNat := by decide
+
+
+
+/-! ### index rows -/
+
+/-- the lines of a wrapped block -/
+def chunks (W : Nat) (seq : Bytes) : List Bytes :=
+  if _h : seq = [] ∨ W = 0 then [] else seq.take W :: chunks W (seq.drop W)
+termination_by seq.length
+decreasing_by
+  have : seq.length ≠ 0 := fun hc => _h (Or.inl (List.eq_nil_of_length_eq_zero hc))
+  simp only [List.length_drop]; omega
+
+theorem chunks_nil (W : Nat) : chunks W [] = [] := by rw [chunks]; simp
+
+theorem chunks_cons (W : Nat) (hW : 0 < W) (seq : Bytes) (hs : seq ≠ []) :
+    chunks W seq = seq.take W :: chunks W (seq.drop W) := by
+  rw [chunks]
+  have : ¬ (seq = [] ∨ W = 0) := by
+    intro h; cases h with | inl h => exact hs h | inr h => omega
+  simp [this]
+
+theorem lines_line (cur l rest : Bytes) (h : 10 ∉ l) :
+    linesAux cur (l ++ 10 :: rest) = (cur.reverse ++ l) :: linesAux [] rest := by
+  induction l generalizing cur with
+  | nil => simp [linesAux]
+  | cons c cs ih =>
+    have hc : c ≠ 10 := fun hc => h (by simp [hc])
+    simp only [List.cons_append, linesAux, hc, if_false]
+    rw [ih (c :: cur) (fun hm => h (by simp [hm]))]
+    simp
+
+theorem lines_wrap (W : Nat) (hW : 0 < W) (seq rest : Bytes) (h : 10 ∉ seq) :
+    linesAux [] (wrapBytes W seq ++ rest) = chunks W seq ++ linesAux [] rest := by
+  induction hn : seq.length using Nat.strongRecOn generalizing seq with
+  | _ n ih =>
+    by_cases hs : seq = []
+    · subst hs; simp [wrap_nil, chunks_nil]
+    · have hL : 0 < seq.length := by
+        cases seq with | nil => exact absurd rfl hs | cons _ _ => simp
+      rw [wrap_cons W hW seq hs, chunks_cons W hW seq hs, List.append_assoc, List.cons_append,
+        lines_line [] _ _ (fun hm => h (List.mem_of_mem_take hm))]
+      rw [ih (seq.length - W) (by omega) (seq.drop W) (fun hm => h (List.mem_of_mem_drop hm)) (by simp)]
+      simp
+
+structure WFRec (r : Rec) : Prop where
+  width_pos : 0 < r.width
+  seq_ne : r.seq ≠ []
+  header_nl : 10 ∉ r.header
+  seq_nl : 10 ∉ r.seq
+  seq_marker : 62 ∉ r.seq
+
+/-- the lines of a file of records -/
+def recLines (r : Rec) : List Bytes := (62 :: r.header) :: chunks r.width r.seq
+
+theorem lines_file (rs : List Rec) (h : ∀ r ∈ rs, WFRec r) :
+    linesOf (fileOf rs) = (rs.map recLines).flatten := by
+  unfold linesOf
+  induction rs with
+  | nil => simp [fileOf, linesAux]
+  | cons r rs ih =>
+    have hr := h r (by simp)
+    have e : fileOf (r :: rs) = (62 :: r.header) ++ 10 :: (wrapBytes r.width r.seq ++ fileOf rs) := by
+      simp [fileOf, recBytes]
+    rw [e, lines_line [] _ _ (by
+      intro hm
+      simp only [List.mem_cons] at hm
+      cases hm with | inl hm => omega | inr hm => exact hr.header_nl hm)]
+    rw [lines_wrap r.width hr.width_pos r.seq _ hr.seq_nl, ih (fun x hx => h x (by simp [hx]))]
+    simp [recLines]
+
+theorem chunks_props_aux (W : Nat) (hW : 0 < W) (n : Nat) : ∀ seq : Bytes, seq.length ≤ n → 62 ∉ seq →
+    (∀ l ∈ chunks W seq, isHeader l = false) ∧
+    ((chunks W seq).map List.length).sum = seq.length ∧
+    ((chunks W seq).map (fun l => l.length + 1)).sum = (wrapBytes W seq).length ∧
+    ((chunks W seq).headD []).length = min W seq.length := by
+  induction n with
+  | zero =>
+    intro seq hle _
+    have : seq = [] := List.eq_nil_of_length_eq_zero (by omega)
+    subst this; simp [wrap_nil, chunks_nil]
+  | succ m ih =>
+    intro seq hle h62
+    by_cases hs : seq = []
+    · subst hs; simp [wrap_nil, chunks_nil]
+    · have hL : 0 < seq.length := by
+        cases seq with | nil => exact absurd rfl hs | cons _ _ => simp
+      obtain ⟨h1, h2, h3, _⟩ := ih (seq.drop W) (by simp; omega)
+        (fun hm => h62 (List.mem_of_mem_drop hm))
+      rw [wrap_cons W hW seq hs, chunks_cons W hW seq hs]
+      refine ⟨?_, ?_, ?_, ?_⟩
+      · intro l hl
+        simp only [List.mem_cons] at hl
+        cases hl with
+        | inl hl =>
+          subst hl
+          cases hseq : seq with
+          | nil => exact absurd hseq hs
+          | cons c cs =>
+            have hc : c ≠ 62 := fun hc => h62 (by simp [hseq, hc])
+            obtain ⟨k, rfl⟩ : ∃ k, W = k + 1 := ⟨W - 1, by omega⟩
+            simp [isHeader, hc]
+        | inr hl => exact h1 l hl
+      · simp only [List.map_cons, List.sum_cons, h2, List.length_take, List.length_drop]; omega
+      · simp only [List.map_cons, List.sum_cons, h3, List.length_take, List.length_append, List.length_cons]; omega
+      · simp
+
+theorem chunks_props (W : Nat) (hW : 0 < W) (seq : Bytes) (h62 : 62 ∉ seq) :
+    (∀ l ∈ chunks W seq, isHeader l = false) ∧
+    ((chunks W seq).map List.length).sum = seq.length ∧
+    ((chunks W seq).map (fun l => l.length + 1)).sum = (wrapBytes W seq).length ∧
+    ((chunks W seq).headD []).length = min W seq.length :=
+  chunks_props_aux W hW seq.length seq (Nat.le_refl _) h62
+
+theorem takeWhile_append_stop {α} (p : α → Bool) (l1 l2 : List α) (h1 : ∀ x ∈ l1, p x = true)
+    (h2 : l2 = [] ∨ ∃ y ys, l2 = y :: ys ∧ p y = false) :
+    (l1 ++ l2).takeWhile p = l1 ∧ (l1 ++ l2).dropWhile p = l2 := by
+  induction l1 with
+  | nil =>
+    rcases h2 with h2 | ⟨y, ys, h2, hy⟩
+    · subst h2; simp
+    · subst h2; simp [hy]
+  | cons x xs ih =>
+    have hx := h1 x (by simp)
+    obtain ⟨i1, i2⟩ := ih (fun z hz => h1 z (by simp [hz]))
+    simp [hx, i1, i2]
+
+theorem index_from (off : Nat) (rs : List Rec) (h : ∀ r ∈ rs, WFRec r) :
+    indexLines off (rs.map recLines).flatten = specIndexFrom off rs := by
+  induction rs generalizing off with
+  | nil => simp [specIndexFrom]; rw [indexLines]
+  | cons r rs ih =>
+    have hr := h r (by simp)
+    obtain ⟨c1, c2, c3, c4⟩ := chunks_props r.width hr.width_pos r.seq hr.seq_marker
+    have hstop : (rs.map recLines).flatten = [] ∨
+        ∃ y ys, (rs.map recLines).flatten = y :: ys ∧ (fun l => !isHeader l) y = false := by
+      cases rs with
+      | nil => left; rfl
+      | cons r2 rs2 =>
+        right
+        exact ⟨62 :: r2.header, chunks r2.width r2.seq ++ (rs2.map recLines).flatten,
+          by simp [recLines], by simp [isHeader]⟩
+    obtain ⟨t1, t2⟩ := takeWhile_append_stop (fun l => !isHeader l) (chunks r.width r.seq) _
+      (fun x hx => by simp [c1 x hx]) hstop
+    have e : ((r :: rs).map recLines).flatten
+        = (62 :: r.header) :: (chunks r.width r.seq ++ (rs.map recLines).flatten) := by
+      simp [recLines]
+    rw [e, indexLines]
+    simp only [t1, t2, c2, c3, c4, specIndexFrom, List.length_cons, List.drop_succ_cons, List.drop_zero]
+    rw [ih _ (fun x hx => h x (by simp [hx]))]
+    congr 2 <;> omega
+
+/-- **C17.index_rows**: for every FASTA made of well-formed records (any number of records, any
+width ≥ 1 per record, last line short or full, single-line records, headers with descriptions) the
+index built by the code lists header, true length, byte offset of the first base, bases per line
+and bytes per line; `create_index` names each row by the first word of the header -/
+theorem index_rows (rs : List Rec) (h : ∀ r ∈ rs, WFRec r) :
+    buildIndex (fileOf rs) = specIndex rs ∧
+    createIndex (fileOf rs) = (specIndex rs).map (fun r => { r with name := firstWord r.name }) := by
+  have : buildIndex (fileOf rs) = specIndex rs := by
+    unfold buildIndex specIndex
+    rw [lines_file rs h, index_from 0 rs h]
+  exact ⟨this, by unfold createIndex; rw [this]⟩
+
+example : WFRec ⟨"a desc".toList.map Char.toNat, "ACGTACG".toList.map Char.toNat, 5⟩ :=
+  ⟨by decide, by decide, by decide, by decide, by decide⟩
+
+
+
+/-! ### whole-contig read -/
+
+theorem posOf_eq (W i : Nat) : posOf W i = i + i / W := by
+  unfold posOf
+  have h1 := Nat.div_add_mod i W
+  have h2 : i / W * (W + 1) = W * (i / W) + i / W := by rw [Nat.mul_succ, Nat.mul_comm]
+  omega
+
+theorem posOf_mono (W i j : Nat) (h : i ≤ j) : posOf W i ≤ posOf W j := by
+  rw [posOf_eq, posOf_eq]
+  have := Nat.div_le_div_right (c := W) h
+  omega
+
+theorem reshape_get (W : Nat) (hW : 0 < W) (n : Nat) : ∀ (data : Bytes) (i : Nat), i < n * W →
+    n * (W + 1) ≤ data.length → (reshapeCols (W + 1) W n data)[i]? = data[posOf W i]? := by
+  induction n with
+  | zero => intro data i hi; simp at hi
+  | succ m ih =>
+    intro data i hi hlen
+    have e1 : (m + 1) * (W + 1) = m * (W + 1) + (W + 1) := Nat.succ_mul _ _
+    have e2 : (m + 1) * W = m * W + W := Nat.succ_mul _ _
+    simp only [reshapeCols]
+    have hl : ((data.take (W + 1)).take W).length = W := by simp; omega
+    by_cases hlt : i < W
+    · rw [List.getElem?_append_left (by omega), posOf_lt W i hlt, List.take_take,
+        List.getElem?_take]
+      simp [hlt]
+    · rw [List.getElem?_append_right (by omega), hl, posOf_ge W i hW (by omega)]
+      rw [ih (data.drop (W + 1)) (i - W) (by omega) (by simp; omega), List.getElem?_drop]
+
+/-- **C17.fetch_contig**: the whole-contig read returns the full sequence -/
+theorem fetch_contig (pre post seq : Bytes) (W : Nat) (hW : 0 < W) (hs : seq ≠ []) (name : Bytes) :
+    fetchContig (pre ++ wrapBytes W seq ++ post)
+      ⟨name, seq.length, pre.length, min W seq.length, min W seq.length + 1⟩ = seq := by
+  have hL : 0 < seq.length := by
+    cases seq with | nil => exact absurd rfl hs | cons _ _ => simp
+  obtain ⟨V, hV⟩ : ∃ V, V = min W seq.length := ⟨_, rfl⟩
+  have hVpos : 0 < V := by omega
+  rw [wrap_min W seq hs, ← hV]
+  unfold fetchContig readAt
+  simp only
+  obtain ⟨nRows, hnR⟩ : ∃ nRows, nRows = (seq.length + V - 1) / V := ⟨_, rfl⟩
+  rw [← hnR]
+  -- row arithmetic
+  have hq : nRows = (seq.length - 1) / V + 1 := by
+    rw [hnR, show seq.length + V - 1 = (seq.length - 1) + V by omega, Nat.add_div_right _ hVpos]
+  have hdm := Nat.div_add_mod (seq.length - 1) V
+  have hmod := Nat.mod_lt (seq.length - 1) hVpos
+  obtain ⟨q, hqd⟩ : ∃ q, q = (seq.length - 1) / V := ⟨_, rfl⟩
+  rw [← hqd] at hq hdm
+  have hVq : V * q = q * V := Nat.mul_comm _ _
+  have hbytes : (nRows - 1) * (V + 1) + (seq.length - (nRows - 1) * V) = posOf V (seq.length - 1) + 1 := by
+    rw [posOf_eq, ← hqd, hq, Nat.add_sub_cancel]
+    have : q * (V + 1) = q * V + q := Nat.mul_succ _ _
+    omega
+  rw [hbytes]
+  have hrows : seq.length ≤ nRows * V := by
+    rw [hq, Nat.succ_mul]; omega
+  obtain ⟨T, hT⟩ : ∃ T, T = wrapBytes V seq := ⟨_, rfl⟩
+  rw [← hT, List.append_assoc, List.drop_left]
+  obtain ⟨got, hgot⟩ : ∃ got, got = ((T ++ post).take (posOf V (seq.length - 1) + 1)) := ⟨_, rfl⟩
+  rw [← hgot]
+  apply List.ext_getElem?
+  intro i
+  by_cases hi : i < seq.length
+  · rw [List.getElem?_take, if_pos hi]
+    have hdata : nRows * (V + 1) ≤ (got ++ List.replicate ((V + 1) * nRows - got.length) 0).length := by
+      simp only [List.length_append, List.length_replicate]
+      rw [Nat.mul_comm (V + 1) nRows]; omega
+    rw [reshape_get V hVpos nRows _ i (by omega) hdata]
+    have hp : posOf V i < posOf V (seq.length - 1) + 1 := by
+      have := posOf_mono V i (seq.length - 1) (by omega); omega
+    have hlay := layout V hVpos seq i hi
+    rw [← hT] at hlay
+    have hTi : posOf V i < T.length := by
+      cases hc : T[posOf V i]? with
+      | none => rw [hc] at hlay; simp at hlay; omega
+      | some _ => exact (List.getElem?_eq_some_iff.mp hc).1
+    have hgl : posOf V i < got.length := by
+      rw [hgot, List.length_take, List.length_append]; omega
+    rw [List.getElem?_append_left hgl, hgot, List.getElem?_take, if_pos hp,
+      List.getElem?_append_left hTi, hlay]
+  · rw [List.getElem?_take, if_neg hi]
+    simp; omega
+
+
+
+/-! ### end to end on a whole file -/
+
+theorem fileOf_append (rs1 rs2 : List Rec) : fileOf (rs1 ++ rs2) = fileOf rs1 ++ fileOf rs2 := by
+  simp [fileOf]
+
+theorem length_recBytes (r : Rec) :
+    (recBytes r).length = r.header.length + 2 + (wrapBytes r.width r.seq).length := by
+  simp [recBytes]; omega
+
+theorem specIndexFrom_append (off : Nat) (rs1 rs2 : List Rec) :
+    specIndexFrom off (rs1 ++ rs2) = specIndexFrom off rs1 ++ specIndexFrom (off + (fileOf rs1).length) rs2 := by
+  induction rs1 generalizing off with
+  | nil => simp [specIndexFrom, fileOf]
+  | cons r rs ih =>
+    simp only [List.cons_append, specIndexFrom, ih]
+    have : fileOf (r :: rs) = recBytes r ++ fileOf rs := by simp [fileOf]
+    rw [this, List.length_append, length_recBytes]
+    simp only [List.cons.injEq, true_and]
+    congr 2; omega
+
+theorem length_specIndexFrom (off : Nat) (rs : List Rec) : (specIndexFrom off rs).length = rs.length := by
+  induction rs generalizing off with
+  | nil => rfl
+  | cons r rs ih => simp [specIndexFrom, ih]
+
+theorem takeWhile_idem {α} (p : α → Bool) (l : List α) : (l.takeWhile p).takeWhile p = l.takeWhile p := by
+  induction l with
+  | nil => rfl
+  | cons c cs ih =>
+    cases hp : p c with
+    | true => rw [List.takeWhile_cons, hp]; simp only [if_true]; rw [List.takeWhile_cons, hp]; simp only [if_true, ih]
+    | false => rw [List.takeWhile_cons, hp]; simp
+
+theorem firstWord_idem (h : Bytes) : firstWord (firstWord h) = firstWord h := takeWhile_idem _ h
+
+/-- **C17.random_access**: in the file made of any well-formed records, the row the library builds
+for the record at any position names it by its first header word, carries its true length, and both
+the interval read (every `0 ≤ a ≤ b ≤ L`) and the whole-contig read through that row return the
+record's own bases -/
+theorem random_access (rs1 rs2 : List Rec) (r : Rec) (hwf : ∀ x ∈ rs1 ++ r :: rs2, WFRec x)
+    (a b : Nat) (hab : a ≤ b) (hb : b ≤ r.seq.length) :
+    ∃ row, (createIndex (fileOf (rs1 ++ r :: rs2)))[rs1.length]? = some row ∧
+      row.name = firstWord r.header ∧ row.rlen = r.seq.length ∧
+      fetchInterval (fileOf (rs1 ++ r :: rs2)) row a b = (r.seq.drop a).take (b - a) ∧
+      fetchContig (fileOf (rs1 ++ r :: rs2)) row = r.seq := by
+  have hr : WFRec r := hwf r (by simp)
+  obtain ⟨pre, hpre⟩ : ∃ pre, pre = fileOf rs1 ++ (62 :: r.header ++ [10]) := ⟨_, rfl⟩
+  have hfile : fileOf (rs1 ++ r :: rs2) = pre ++ wrapBytes r.width r.seq ++ fileOf rs2 := by
+    rw [hpre, fileOf_append]
+    have : fileOf (r :: rs2) = recBytes r ++ fileOf rs2 := by simp [fileOf]
+    rw [this]; simp [recBytes]
+  have hplen : pre.length = (fileOf rs1).length + r.header.length + 2 := by
+    rw [hpre]; simp; omega
+  refine ⟨⟨firstWord r.header, r.seq.length, pre.length, min r.width r.seq.length, min r.width r.seq.length + 1⟩, ?_, rfl, rfl, ?_, ?_⟩
+  · rw [(index_rows _ hwf).2]
+    unfold specIndex
+    rw [specIndexFrom_append, List.map_append, List.getElem?_append_right (by simp [length_specIndexFrom])]
+    simp [length_specIndexFrom, specIndexFrom, hplen]
+  · rw [hfile]
+    exact fetch_interval pre (fileOf rs2) r.seq r.width hr.width_pos hr.seq_ne _ a b hab hb
+  · rw [hfile]
+    exact fetch_contig pre (fileOf rs2) r.seq r.width hr.width_pos hr.seq_ne _
+
+theorem spec_lengths (off : Nat) (rs : List Rec) :
+    (specIndexFrom off rs).map (fun r => (firstWord r.name, r.rlen))
+      = rs.map (fun r => (firstWord r.header, r.seq.length)) := by
+  induction rs generalizing off with
+  | nil => rfl
+  | cons r rs ih => simp [specIndexFrom, ih]
+
+/-- **C17.contig_lengths**: the contig lengths reported for a file are the true sequence lengths -/
+theorem contig_lengths (rs : List Rec) (hwf : ∀ x ∈ rs, WFRec x) :
+    contigLengths (createIndex (fileOf rs)) = rs.map (fun r => (firstWord r.header, r.seq.length)) := by
+  rw [(index_rows rs hwf).2]
+  unfold contigLengths specIndex
+  rw [List.map_map]
+  have : ((fun r : IdxRow => (firstWord r.name, r.rlen)) ∘ fun r => { r with name := firstWord r.name })
+      = fun r : IdxRow => (firstWord r.name, r.rlen) := by
+    funext r; simp [firstWord_idem]
+  rw [this, spec_lengths]
+
 
 /-- the rule shipped before the repair reported bases-per-line: for `>a\nACGTA\nCG\n` (index row
 `a 7 3 5 6`, see `index_rows`) it gave `{'a': 5}`; the true length is 7 -/
